@@ -34,6 +34,10 @@ CHECKS = {
          "Decides the structural core of 'rejected or preserved, never silently mistranslated': unsupported kinds are rejected on every path; every original part that can contain a yield and still reaches the output is covered by a yield-freeness test answered true on its path (so no Yield can survive as a no-op stub); every nested statement list that reaches the output went through the rewriter's recursion (so nested unsupported constructs were seen); the branch pass keeps/replaces/rejects break/continue/fallthrough/goto exactly per the Go spec's target rule for all context nestings up to depth 3, with balanced context stacks; functions are marked as generators only after the signature check.",
          "Relies on go/ast grammar facts (init/post are simple statements, switch bodies hold case clauses); the oracles mustNoYield/containsYield are trusted to mean yield-freeness (their own traversal is checked under C13's guard rule); behaviour of accepted programs is C01-C06.",
          "DESIGN.md §4 C12"),
+ "C01": ("decision-table extraction by abstract interpretation (block tables, termination checker vs spec reference on enumerated shapes, branch pass driven over context nestings), lowering-vs-runtime signal agreement",
+         "Whole-program equivalence is not decided. Decided, for every path of the code that implements them: the combine / implicit-Normal / yield-freeness tables of the block abstraction; the break/continue pass against the Go spec's target rule for every nesting of native contexts up to depth 3; the termination checker never over-approximates the spec's 'terminating statements' on ~2000 enumerated shapes; Loop/While/For choice and argument roles; the lowering of every break/continue target agrees with the signal tables extracted from the runtime in the same run; plus the runtime tables of C08.",
+         "Known findings D18 (break after a yield inside a switch case) and D19 (continue with a yielding for-post) are recorded in known_findings.json; Go closure semantics, go/ssa and go/ast grammar facts are trusted.",
+         "DESIGN.md §4 C01"),
 }
 
 NOT_APPLICABLE = {
